@@ -563,7 +563,8 @@ def classify_layout_difference(case, ra, rb):
         a, b = ra[1], rb[1]
         if a[0] == b[0] == 'Series' and sorted(zip(a[1], a[2])) == sorted(zip(b[1], b[2])):
             return 'F20'  # same (label, value) pairs, order depends on layout
-    if name == 'reduce' and args[0] in ('sum', 'prod', 'cumsum', 'cumprod') and ra[0] == rb[0] == 'ok' \
+    overflow_one_side = sorted([ra[0], rb[0]]) == ['err', 'ok'] and 'OverflowError' in (ra[1] if ra[0] == 'err' else rb[1])
+    if name == 'reduce' and args[0] in ('sum', 'prod', 'cumsum', 'cumprod') and (ra[0] == rb[0] == 'ok' or overflow_one_side) \
             and any(c['dt'] in ('int8', 'uint8', 'float32') for c in case['spec']['cols']):
         return 'F72'  # narrow numeric columns: the per-block output keeps the narrow dtype and wraps / rounds
     if name == 'reduce' and rows == 0 and args[0] in ('all', 'any'):
